@@ -395,6 +395,31 @@ pub fn run(ctx: &Ctx, rep: &Report) {
         });
         n += jobs.len() as u64 * 2 * 16 * 4;
     }
+    // the ends of the Earth: true positions exactly on a pole or on the 180th meridian (their cell centre lies 0.7 m
+    // beyond), and the cells next to them, seen from references close by
+    {
+        let ends: [([f64; 2], f64, f64); 6] = [
+            ([89.99, 10.0], 90.0, 10.0),
+            ([-89.99, -60.0], -90.0, -60.0),
+            ([10.0, 179.99], 10.0, 180.0),
+            ([-20.0, -179.99], -20.0, -180.0),
+            ([89.995, 179.995], 90.0, 180.0),
+            ([-89.995, -179.995], -90.0, -180.0),
+        ];
+        for (r, lat, lon) in ends {
+            for dl in [-2i64, -1, 0] {
+                for dn in [-2i64, -1, 0] {
+                    let tl = units(lat) - lat.signum() as i64 * (-dl);
+                    let tn = units(lon) - lon.signum() as i64 * (-dn);
+                    for magic in [0x10u8, 0x20] {
+                        let f = Fields { magic, lat_code: (tl & 0x7ffff) as u32, lon_code: (tn & 0xfffff) as u32, ..Fields::base() };
+                        check_inverse(&f, base_t, &r, Some((center(tl), center(tn))), rep);
+                        n += 1;
+                    }
+                }
+            }
+        }
+    }
     // truncated and over-long well-formed packets (the decoder must answer with a record or an error)
     {
         let full = Fields::base().packet(base_t);
